@@ -3396,9 +3396,10 @@ iwrc iwkv_db(struct iwkv *iwkv, uint32_t dbid, iwdb_flags_t dbflg, struct iwdb *
   db = iwhmap_get_u32(iwkv->dbs, dbid);
   if (db) {
     if (db->dbflg != dbflg) {
-      return IWKV_ERROR_INCOMPATIBLE_DB_MODE;
+      rc = IWKV_ERROR_INCOMPATIBLE_DB_MODE;
+    } else {
+      *dbp = db;
     }
-    *dbp = db;
   } else {
     rc = _db_create_lw(iwkv, dbid, dbflg, dbp);
   }
